@@ -382,14 +382,20 @@ def gen_misuse(rng, models, state, only=None, first=None):
             if kind == 'second_objective' and sa['obj'] and a_dv:
                 hows = {'lp': ['min', 'max'], 'socp': ['min', 'max'], 'gcp': ['min', 'max'], 'ro': ['min', 'max', 'minmax', 'maxmin'], 'dro': ['min', 'max', 'minsup', 'maxinf']}[A['kind']]
                 how = rng.choice(hows)
-                o = dict(mk, op='obj', m=pa + 'm', how=how, e=['sum', ['v', pa + rng.choice(a_dv)]])
+                sv_ = ['sum', ['v', pa + rng.choice(a_dv)]]
+                # the second objective is an affine expression, a plain number, or a piecewise / convex function
+                forms = [sv_, sv_, ['c', 3.0], ['maxof', sv_, ['c', 0.0]], ['maxof', sv_, ['*', ['c', 2.0], sv_]]]
+                if A['kind'] not in ('lp',) and how in ('min', 'minmax', 'minsup'):
+                    forms.append(['f', 'abs', sv_])
+                o = dict(mk, op='obj', m=pa + 'm', how=how, e=rng.choice(forms))
                 if how in ('minmax', 'maxmin'):
                     o['set'] = []
                 if how in ('minsup', 'maxinf'):
                     if not a_amb:
                         continue
                     o['amb'] = pa + a_amb[0]
-                    o['e'] = ['E', o['e']]
+                    if o['e'][0] != 'c':
+                        o['e'] = ['E', o['e']]
                 return [o]
             if kind == 'nonscalar_objective' and not sa['obj'] and pa + 'm' in sa['built']:
                 big = [n for n in a_dv if dict(A['dvars'])[n] > 1]
